@@ -9,7 +9,7 @@
 
 static long vp_outstanding, vp_allocs, vp_frees;
 
-#define VP_WATCH_MAX 64
+#define VP_WATCH_MAX 4096
 static void *vp_watch_ptr[VP_WATCH_MAX];
 static int vp_watch_freed[VP_WATCH_MAX];
 static int vp_nwatch;
@@ -32,6 +32,6 @@ static void vp_alloc_install(void) {
 }
 /* user payloads that the library may free through the memhook are allocated with this */
 static void *vp_user_alloc(size_t n) { return vp_malloc(n); }
-static int vp_watch(void *p) { vp_watch_ptr[vp_nwatch] = p; vp_watch_freed[vp_nwatch] = 0; return vp_nwatch++; }
+static int vp_watch(void *p) { if (vp_nwatch >= VP_WATCH_MAX) vp_nwatch = VP_WATCH_MAX - 1; vp_watch_ptr[vp_nwatch] = p; vp_watch_freed[vp_nwatch] = 0; return vp_nwatch++; }
 static void vp_watch_reset(void) { vp_nwatch = 0; }
 #endif
